@@ -297,7 +297,7 @@ def case_oracle(case, *, max_leaves=300, n_random=40, seed=1,
         f = explore_execution(case, builds, partitions, model,
                               max_leaves=max_leaves, n_random=n_random,
                               seed=seed, info=info)
-        if f is None and compiled:
+        if f is None and (compiled or case.get("compiled")):
             f, info["compiled"] = compiled_check(case, builds, partitions,
                                                  model, reference.vals)
         return f, info
@@ -368,6 +368,8 @@ def run_shard(shard: int, nshards: int, seed: int, tier: str) -> ShardResult:
             c = dict(case)
             if f.extra.get("schedule"):
                 c["schedule"] = f.extra["schedule"]
+            if f.kind.startswith(("part-codegen", "compiled-")):
+                c["compiled"] = True
             res.fail(f, c)
 
     hyp_run(distgen.cases(), body, seed, pl["examples"])
@@ -389,7 +391,8 @@ def minimize(case, fj):
     base = {k: v for k, v in case.items() if k != "schedule"}
     if not still(base):
         base = case
-    small = distgen.minimize_case(base, still, budget=70)
+    small = distgen.minimize_case(base, still,
+                                  budget=30 if case.get("compiled") else 70)
     f, _ = case_oracle(small, max_leaves=300, n_random=20, seed=1)
     if f is None and sched is not None:
         small = case
